@@ -185,6 +185,53 @@ async fn scenario(name: &str) -> Result<(), String> {
         return Err(format!("MODEL: the scenario's own set-up did not take: leader serves {:?}, snapshot index {}", on_leader, s_index));
     }
     match name {
+        "truncate_behind_snapshot_pointer" | "truncate_behind_installed_snapshot" => {
+            // C03 at the level of the log manager: the log catalogue starts with a snapshot pointer file (written by the second
+            // compaction, or by a snapshot installation); a conflict truncation inside the current file must remove exactly the suffix
+            let node;
+            let base: u64;
+            if name == "truncate_behind_snapshot_pointer" {
+                node = leader; // entries 1..=3, first compaction done
+                commit(&node, 4, config_set("a.yaml", "a: 4", 4)).await;
+                commit(&node, 5, config_set("a.yaml", "a: 5", 5)).await;
+                node.store.do_log_compaction().await.map_err(|e| format!("MODEL: second compaction: {}", e))?;
+                base = 5;
+            } else {
+                use tokio::io::AsyncWriteExt;
+                node = boot(d2.path()).await;
+                let (id, mut file) = node.store.create_snapshot().await.map_err(|e| format!("MODEL: create_snapshot: {}", e))?;
+                file.write_all(&bytes).await.unwrap();
+                file.flush().await.unwrap();
+                node.store.finalize_snapshot_installation(s_index, s_term, None, id, file).await.map_err(|e| format!("MODEL: install: {}", e))?;
+                base = s_index;
+            }
+            for i in 1..=3u64 {
+                let e = Entry { term: 1, index: base + i, payload: EntryPayload::Normal(EntryNormal { data: config_set("b.yaml", "b", base + i) }) };
+                node.store.append_entry_to_log(&e).await.map_err(|e| format!("MODEL: append {}: {}", base + i, e))?;
+            }
+            tokio::time::sleep(Duration::from_millis(100)).await;
+            let before = node.store.get_log_entries(base + 1, base + 4).await.map_err(|e| format!("MODEL: query: {}", e))?;
+            if before.len() != 3 {
+                return Err(format!("MODEL: the scenario's own set-up did not take: {} entries behind index {}", before.len(), base));
+            }
+            // the leader's log conflicts from base + 2 on
+            node.store.delete_logs_from(base + 2, None).await.map_err(|e| format!("delete_logs_from fails: {}", e))?;
+            tokio::time::sleep(Duration::from_millis(100)).await;
+            let after = node.store.get_log_entries(base + 1, base + 4).await.map_err(|e| format!("query after the truncation fails: {}", e))?;
+            let idx: Vec<u64> = after.iter().map(|e| e.index).collect();
+            if idx != vec![base + 1] {
+                return Err(format!(
+                    "delete-from {} with a snapshot pointer file (index {}) at the head of the log catalogue: entries {:?} are still returned, only {} was acknowledged and not removed",
+                    base + 2, base, idx, base + 1
+                ));
+            }
+            let e = Entry { term: 2, index: base + 2, payload: EntryPayload::Normal(EntryNormal { data: config_set("b.yaml", "b2", base + 2) }) };
+            node.store.append_entry_to_log(&e).await.map_err(|e| format!("the append at the cut index {} is refused after the truncation: {}", base + 2, e))?;
+            let last = node.store.get_log_entries(base + 2, base + 3).await.map_err(|e| format!("query fails: {}", e))?;
+            if last.len() != 1 || last[0].term != 2 {
+                return Err(format!("the entry appended at the cut index is not the one returned: {:?}", last.iter().map(|e| (e.index, e.term)).collect::<Vec<_>>()));
+            }
+        }
         "three_paths_same_state" => {
             // C07: the same committed requests through (a) the leader's apply path (done by `leader` above: entries 1..=3),
             // (b) the follower's batch replication path, (c) start-up replay of the log on a restarted node
